@@ -27,7 +27,7 @@ class Stopper:
 
 
 PROP = 'C04'
-TIERS = {'quick': 4800, 'thorough': 40000}
+TIERS = {'quick': 4800, 'thorough': 160000}
 RULE = ('each run: one seeded netlist (5-150 leaves, hierarchy 0-3, fan-out, reconvergence, registers between '
         'stages) built in a PRNG-chosen instantiation order, stepped with seeded vectors under faults; '
         'non-trivial = the unsorted leaf list was not already a valid order (sorter had to repair) or a fault fired; '
